@@ -171,8 +171,11 @@ def cfg_features(attrs, what):
     for a in attrs:
         t = nows(a)
         m = re.fullmatch(r'#\[cfg\(feature="([\w-]+)"\)\]', t)
+        m2 = re.fullmatch(r'#\[cfg\(all\(((?:feature="[\w-]+",?)+)\)\)\]', t)
         if m:
             feats.append(m.group(1))
+        elif m2:
+            feats.extend(re.findall(r'feature="([\w-]+)"', m2.group(1)))     # a conjunction, like several cfg attributes
         elif t.startswith("#[cfg"):
             raise TranslateError("%s: unsupported cfg attribute %s" % (what, a))
     return feats
